@@ -3,12 +3,12 @@ CONSTANTS
   Tags = {"a", "b"}
   Terms = {"h"}
   MaxArg = 2
-  MaxLen = 4
-  MaxChains = 4
-  MaxHands = 1
-  MaxOps = 5
-  MaxReqs = 0
-  Variant = "forward"
+  MaxLen = 3
+  MaxChains = 2
+  MaxHands = 2
+  MaxOps = 2
+  MaxReqs = 2
+  Variant = "copy"
   Emit = FALSE
   EmitFrom = 1
 INVARIANTS Refines WalkOK WalksOwnHandler
